@@ -57,6 +57,19 @@ def jobs(tier, seed):
         # candidate assignments (x, c1, c2): CPython's numeric-hash collisions -1/-2
         js.append({"mode": "route", "d": d, "pre_variant": v, "routes": list(ROUTES1) + ["synth2_fwd"], "var": "x", "var2": "x",
                    "candidates": [[3, -2, -1], [2, -1, -2], [3, -2.0, -1.0]]})
+    # the original was USED before it is differentiated symbolically (its nodes hold values of another point q, possibly of a failed evaluation), and
+    # the derivative object itself was queried numerically / located before it is asked for its expression
+    import json as _json
+    import re as _re
+    used = fam.f1_shared(tier) + [["Multiply", ["Exponential", fam.X], ["NthRoot", fam.Y, 3]], ["Power", ["Add", fam.X, ["const", 2]], fam.Y],
+                                   ["Divide", ["Sine", ["Multiply", fam.X, fam.Y]], ["Add", ["NthPower", fam.X, 2], ["const", 1]]]]
+    for i, d in enumerate(used):
+        keys = sorted(set(_re.findall(r'"share", "(\w+)"', _json.dumps(d))))
+        pres = [[["eval", "root", "q"]], [["fwd", "root", "q"]], [["rev", "root", "q"], ["eval", "root", "q"]]] + [[["eval", k, "q"]] for k in keys]
+        for pre in (pres if tier == "thorough" else pres[i % 2::2] + pres[:1]):
+            add(d, var="x", pre=pre)
+        for seq in ([["at", "q"]], [["at", "q"], ["obj", "q"]], [["comp", "q"], ["at", "q"]], [["expr", "eval", "q"], ["at", ""]]):
+            add(d, ["synth_rev", "synth_fwd", "synth_diff_late"], var="x", reuse_seq=seq)
     add(["Exponential", fam.A(1), ["sym", "b"]], var="x", assume=[["gt", "b", 0]])
     add(["Logarithm", fam.A(1), ["sym", "b"]], var="x", assume=[["gt", "b", 0], ["ne", "b", 1]])
     f2 = fam.f2_quick(6, 1) if tier == "quick" else fam.f2("thorough")[::2]
